@@ -1,5 +1,5 @@
 (** C01 - Every task gets exactly one terminal outcome, reported once, in order. *)
-From HQ Require Import Base.Prelude Cluster.Types Cluster.Core Cluster.Reactor Cluster.Worker Cluster.Server Cluster.Sys Cluster.Monitors Cluster.ProofsJob Cluster.ProofsCore Cluster.ProofsMore Cluster.ProofsTerminal Cluster.ProofsStep Cluster.ProofsFinal Cluster.BijBase Cluster.ProofsOnce Cluster.RejHyp Cluster.BijFinal Cluster.StartFinBase Cluster.StartFin Cluster.StartFin2Base Cluster.StartFin2 Cluster.NoPanicU0 Cluster.ExecU19.
+From HQ Require Import Base.Prelude Cluster.Types Cluster.Core Cluster.Reactor Cluster.Worker Cluster.Server Cluster.Sys Cluster.Monitors Cluster.ProofsJob Cluster.ProofsCore Cluster.ProofsMore Cluster.ProofsTerminal Cluster.ProofsStep Cluster.ProofsFinal Cluster.BijBase Cluster.ProofsOnce Cluster.RejHyp Cluster.BijFinal Cluster.StartFinBase Cluster.StartFin Cluster.StartFin2Base Cluster.StartFin2 Cluster.NoPanicU0 Cluster.ExecU19 Cluster.SilentBase Cluster.SilentStart Cluster.SilentRan.
 From Coq Require Import ZArith.
 Local Open Scope N_scope.
 
@@ -119,6 +119,34 @@ Theorem C01_reported_means_ran_partial : forall ops reserve maxfill s outs,
     exists a l b, outs = a ++ OLaunch l :: b /\ l_w l = p_id p /\ l_t l = x /\ l_ok l = true.
 Proof. exact reported_means_ran_partial. Qed.
 
+(** SILENT AFTER TERMINAL (every history, no hypothesis): once a terminal event of a task is in the
+    stream, no later event names the task at all - no second outcome, no start. *)
+Theorem C01_silent_after_terminal : forall ops reserve maxfill s outs,
+  run (init_sys reserve maxfill) ops = Ok (s, outs) ->
+  forall pre e post t, outs = pre ++ OEv e :: post -> In t (terminal_ids [OEv e]) ->
+  forall e', In (OEv e') post -> ~ In t (ev_names e').
+Proof. exact silent_after_terminal. Qed.
+
+(** FINISHED MEANS IT RAN: every TaskFinished (and every TaskFailed with kind task error / time
+    limit) is emitted while the server processes a message of a worker that contains the report,
+    and that worker launched the task successfully before. *)
+Theorem C01_finished_means_ran : forall ops reserve maxfill s outs pre x post,
+  Forall op_wf ops -> ops_ok (init_sys reserve maxfill) ops = true ->
+  run (init_sys reserve maxfill) ops = Ok (s, outs) ->
+  outs = pre ++ OEv (EvFinished x) :: post ->
+  exists a l b us d,
+    pre = a ++ OLaunch l :: b ++ OUp (l_w l) (UUpdates us) :: d /\
+    l_t l = x /\ l_ok l = true /\ In (UFinished x) us /\ Forall not_up d.
+Proof. exact finished_means_ran. Qed.
+Theorem C01_failed_means_ran : forall ops reserve maxfill s outs pre x k post,
+  Forall op_wf ops -> ops_ok (init_sys reserve maxfill) ops = true ->
+  run (init_sys reserve maxfill) ops = Ok (s, outs) ->
+  outs = pre ++ OEv (EvFailed x k) :: post -> k = FTask \/ k = FTimeLimit ->
+  exists a l b us d,
+    pre = a ++ OLaunch l :: b ++ OUp (l_w l) (UUpdates us) :: d /\
+    l_t l = x /\ l_ok l = true /\ In (UFailed x k) us /\ Forall not_up d.
+Proof. exact failed_means_ran. Qed.
+
 Print Assumptions C01_terminal_event_once.
 Print Assumptions C01_terminal_event_example.
 Print Assumptions C01_outcome_final_system.
@@ -135,3 +163,6 @@ Print Assumptions C01_fas2_example.
 Print Assumptions C01_failed_without_start_launch.
 Print Assumptions C01_failed_without_start_crash_mn.
 Print Assumptions C01_reported_means_ran_partial.
+Print Assumptions C01_silent_after_terminal.
+Print Assumptions C01_finished_means_ran.
+Print Assumptions C01_failed_means_ran.
